@@ -165,7 +165,21 @@ func mb(v interface{ MarshalBinary() ([]byte, error) }) []byte {
 	if err != nil {
 		panic(fmt.Sprintf("MarshalBinary: %v", err))
 	}
-	return b
+	return take(b)
+}
+
+// take is what a caller may do with any byte slice the API returns: keep a private copy and overwrite the returned
+// slice in place (wiping secrets, re-using the memory). The objects that produced the slice must keep behaving like the
+// reference afterwards, i.e. returned slices must not alias internal state.
+func take(b []byte) []byte {
+	if b == nil {
+		return nil
+	}
+	c := append([]byte{}, b...)
+	for i := range b {
+		b[i] ^= 0xa5
+	}
+	return c
 }
 
 // shortReader is an io.Reader over data that returns short reads (n < len(p), nil error), as the io.Reader
@@ -375,6 +389,7 @@ func evalCase(c *hcase, rep reporter) bool {
 	if isPSK(c.Mode) && len(c.Psk) < 32 {
 		vlib.Class(sub, "short-psk:accepted")
 	}
+	enc = take(enc)
 	if !bytes.Equal(enc, renc) {
 		return rep("C07/enc/"+kn+"/"+modeName[c.Mode], fmt.Sprintf("circl %s, RFC 9180 %s; case %s", vlib.Hex(enc), vlib.Hex(renc), c))
 	}
@@ -406,6 +421,7 @@ func evalCase(c *hcase, rep reporter) bool {
 		pt, aad := m[0], m[1]
 		vlib.Class(sub, fmt.Sprintf("ptlen=%s", lenClass(len(pt))))
 		ct, err := sealer.Seal(pt, aad)
+		ct = take(ct)
 		if err != nil {
 			return rep("C07/seal/error", fmt.Sprintf("message %d: %v; case %s", i, err, c))
 		}
@@ -414,6 +430,7 @@ func evalCase(c *hcase, rep reporter) bool {
 			return rep(fmt.Sprintf("C07/seal/aead%d/ciphertext", c.S.AEAD), fmt.Sprintf("message %d: circl %s, RFC 9180 %s; case %s", i, vlib.Hex(ct), vlib.Hex(want), c))
 		}
 		got, err := opener.Open(ct, aad)
+		got = take(got)
 		if err != nil || !bytes.Equal(got, pt) {
 			return rep("C07/open/roundtrip", fmt.Sprintf("message %d: err=%v; case %s", i, err, c))
 		}
@@ -423,6 +440,7 @@ func evalCase(c *hcase, rep reporter) bool {
 		}
 		ct2, _ := rS2.Seal(aad, pt)
 		got, err = opener2.Open(ct2, aad)
+		got = take(got)
 		if err != nil || !bytes.Equal(got, pt) {
 			return rep("C07/cross/circl-opens-reference", fmt.Sprintf("message %d: err=%v; case %s", i, err, c))
 		}
@@ -435,14 +453,14 @@ func evalCase(c *hcase, rep reporter) bool {
 		vlib.Class(sub, "exportL="+exportClass(e.L, c.S.KDF))
 		want := rS.Export(e.Ctx, e.L)
 		for side, cx := range []hpke.Context{sealer, opener, opener2} {
-			got := cx.Export(e.Ctx, uint(e.L))
+			got := take(cx.Export(e.Ctx, uint(e.L)))
 			if !bytes.Equal(got, want) {
 				return rep("C07/export/value", fmt.Sprintf("export %d (ctx %s, L=%d) on %s: circl %s, RFC 9180 %s; case %s", i, hx(e.Ctx), e.L,
 					[]string{"sealer", "opener", "opener(ref enc)"}[side], vlib.Hex(got), vlib.Hex(want), c))
 			}
 		}
 	}
-	honestExport := sealer.Export(negExportCtx, negExportLen)
+	honestExport := take(sealer.Export(negExportCtx, negExportLen))
 	if !bytes.Equal(honestExport, rS.Export(negExportCtx, negExportLen)) {
 		return rep("C07/export/value", fmt.Sprintf("fixed export differs; case %s", c))
 	}
